@@ -198,7 +198,7 @@ def run_property(prop, tier, seed, replay_file=None):
             first = next((v for v in new_viol if v["sig"] == sig), None)
             print(f"  signature={sig} count={n}")
             if first:
-                print("    " + first["msg"].replace("\n", "\n    ")[:1500])
+                print("    " + "\n    ".join(l[:300] for l in first["msg"].split("\n")[:8]))
             print(f"VIOLATION property={prop} replay={p}")
         return 1
     if problems or unmet:
